@@ -21,6 +21,7 @@ type SpecEnv struct {
 	cs         *ContractSet
 	pkg        *types.Package
 	calleeSig  *types.Signature
+	head       *State    // loop step clauses: the state at the start of the iteration, for athead(...)
 	scopePos   token.Pos // position for resolving Go locals by name (own-function contracts)
 	own        bool      // contract of the unit itself: parameters denote entry values
 	inOld      bool
@@ -488,6 +489,39 @@ func (e *SpecEnv) call(x *ast.CallExpr) Term {
 			e.inOld = true
 			t := e.eval(x.Args[0])
 			e.inOld = saved
+			return t
+		case "called":
+			// called(f): number of executions of a call `f(...)` (callee text) by this activation so far
+			if len(x.Args) != 1 {
+				return e.fail("called(f) takes the callee expression")
+			}
+			u.initCounted()
+			id, ok := u.counted[strings.Join(strings.Fields(u.exprText(x.Args[0])), "")]
+			if !ok || u.entry == nil {
+				return e.fail("called(%s): not a counted callee of this function", u.exprText(x.Args[0]))
+			}
+			h := u.ghostHeap("called")
+			return Term{S: fmt.Sprintf("(- (select %s %d) (select %s %d))", u.heapRead(e.curState(), h), id, u.heapRead(u.entry, h), id), T: types.Typ[types.Int]}
+		case "atentry":
+			// the value of the expression when the function under verification was entered (in call-site conditions
+			// old() is the state just before that call)
+			if e.u.entry == nil {
+				return e.fail("atentry() not available here")
+			}
+			savedSt, savedOld := e.st, e.inOld
+			e.st, e.inOld = e.u.entry, false
+			t := e.eval(x.Args[0])
+			e.st, e.inOld = savedSt, savedOld
+			return t
+		case "athead":
+			// loop step clauses: the value of the expression at the start of the current iteration
+			if e.head == nil {
+				return e.fail("athead() is only available in `loop N step` clauses")
+			}
+			savedSt, savedOld := e.st, e.inOld
+			e.st, e.inOld = e.head, false
+			t := e.eval(x.Args[0])
+			e.st, e.inOld = savedSt, savedOld
 			return t
 		case "len", "cap":
 			a := e.eval(x.Args[0])
